@@ -259,6 +259,41 @@ class Spec:
         return v_sum([self.char_width(I, c) for c, _ in cs])
 
 
+def esc_mask(s):
+    """concrete text: per-character flag 'outside every escape sequence as display_width parses them'"""
+    mask = [True] * len(s)
+    i = 0
+    n = len(s)
+    while i < n:
+        if s[i] == '\x1b':
+            mask[i] = False
+            i += 1
+            if i >= n:
+                break
+            c2 = s[i]
+            mask[i] = False
+            i += 1
+            if c2 == '[':
+                while i < n:
+                    mask[i] = False
+                    c = s[i]
+                    i += 1
+                    if '\x40' <= c <= '\x7e':
+                        break
+            elif c2 == ']':
+                last = ']'
+                while i < n:
+                    mask[i] = False
+                    c = s[i]
+                    i += 1
+                    if c == '\x07' or (c == '\\' and last == '\x1b'):
+                        break
+                    last = c
+            continue
+        i += 1
+    return mask
+
+
 class ConcreteChecker:
     """stands in for the interpreter when an oracle is evaluated on concrete (native) values"""
     concrete = True
